@@ -171,6 +171,13 @@ func (s *SessionKey) Decrypt(ciphertext []byte) ([]byte, error) {
 	// Allow some slack for out-of-order delivery (up to 1024 messages ahead)
 	nonceValue := binary.BigEndian.Uint64(nonce[4:])
 	expectedValue := binary.BigEndian.Uint64(expectedNonce[4:])
+	// The direction prefix must be the peer's send prefix. Both directions share
+	// one key, so without this check an endpoint would accept its own ciphertext
+	// reflected back to it.
+	if binary.BigEndian.Uint32(nonce[:4]) != binary.BigEndian.Uint32(expectedNonce[:4]) {
+		s.mu.Unlock()
+		return nil, fmt.Errorf("nonce direction mismatch: received prefix %x, expected %x", nonce[:4], expectedNonce[:4])
+	}
 	if nonceValue < expectedValue {
 		s.mu.Unlock()
 		return nil, fmt.Errorf("nonce too old: received %d, expected >= %d", nonceValue, expectedValue)
